@@ -48,6 +48,7 @@ def mc_run(configs, nc=3, maxb=4, maxm=2, seatset=(1, 2), ties=None, wds=((),), 
           'MC_UND == {' + ', '.join(tla(set(w)) for w in unds) + '}',
           'MC_DEVS == ' + tla(set(devs)),
           'MC_CHECK == ' + tla(set(check)),
+          'MC_KNOWNCL == ' + tla(set('KNOWN_' + e['id'] for e in vlib.load_known() if e.get('kind') == 'finding')),
           '====']
     cfg = ['SPECIFICATION %s' % ('FairSpec' if liveness else 'Spec'),
            'INVARIANT PropsHold', 'INVARIANT Bounded', 'INVARIANT Exported']
@@ -55,7 +56,7 @@ def mc_run(configs, nc=3, maxb=4, maxm=2, seatset=(1, 2), ties=None, wds=((),), 
         cfg.append('PROPERTY Terminates')
     cfg += ['CONSTANTS', ' CONFIGS <- MC_CONFIGS', ' NC = %d' % nc, ' MAXB = %d' % maxb, ' MAXM = %d' % maxm,
             ' SEATSET = {%s}' % ', '.join(map(str, seatset)), ' TIESET <- MC_TIES', ' WDSET <- MC_WD', ' UNDSET <- MC_UND',
-            ' DEVS <- MC_DEVS', ' CHECK <- MC_CHECK', ' EXPORT = %d' % export]
+            ' DEVS <- MC_DEVS', ' CHECK <- MC_CHECK', ' KNOWNCL <- MC_KNOWNCL', ' EXPORT = %d' % export]
     res = vlib.tlc('MC', '\n'.join(cfg) + '\n', workers=workers, heap_mb=heap_mb, timeout=timeout,
                    mc_text='\n'.join(mc) + '\n', simulate=simulate, extra=extra)
     return res
